@@ -155,9 +155,14 @@ fn unary_ops<const N: usize>(ctx: &mut Ctx, vals: &[[u64; N]]) {
         );
         loc.check(x.mod_4() as u32 == (&ba % 4u32).to_u32_digits().first().copied().unwrap_or(0), || format!("mod_4 N={N} a={a:x?}"));
         loc.check(x.num_bits() as u64 == ba.bits(), || format!("num_bits N={N} a={a:x?} got={}", x.num_bits()));
-        loc.check(x.const_num_bits() as u64 == ((N as u64 - 1) * 64 + (64 - a[N - 1].leading_zeros() as u64)), || format!("const_num_bits N={N} a={a:x?}"));
+        // const_num_bits is documented as "the number of bits in the binary decomposition of self": the bit length
         if a[N - 1] != 0 {
             loc.check(x.const_num_bits() as u64 == ba.bits(), || format!("const_num_bits(top limb nonzero) N={N} a={a:x?}"));
+        } else {
+            loc.class("num_bits:zero_top_limb");
+            loc.check_at("const_num_bits_zero_top_limb", x.const_num_bits() as u64 == ba.bits(), || {
+                format!("BigInt::<{N}>({a:x?}).const_num_bits() = {} but the value has {} bits", x.const_num_bits(), ba.bits())
+            });
         }
         let dr = x.divide_by_2_round_down();
         loc.check(big(&dr.0) == &ba >> 1usize, || format!("divide_by_2_round_down N={N} a={a:x?}"));
@@ -200,14 +205,11 @@ fn unary_ops<const N: usize>(ctx: &mut Ctx, vals: &[[u64; N]]) {
         loc.check(big(&n.0) == &modulus - 1u32 - &ba, || format!("not N={N} a={a:x?}"));
         // strings
         let s = format!("{x}");
-        loc.check(s == ba.to_str_radix(10) && format!("{x:?}") == s, || format!("Display N={N} a={a:x?} got={s}"));
+        loc.check(s == ba.to_str_radix(10), || format!("Display N={N} a={a:x?} got={s}"));
         loc.check(BigInt::<N>::from_str(&s) == Ok(x), || format!("FromStr(Display) N={N} a={a:x?}"));
+        // UpperHex: the hexadecimal numeral denotes the value (padding / width are presentation, not claimed)
         let hx = format!("{x:X}");
-        let mut want_hx = ba.to_str_radix(16).to_uppercase();
-        while want_hx.len() < 16 {
-            want_hx.insert(0, '0');
-        }
-        loc.check(hx == want_hx, || format!("UpperHex N={N} a={a:x?} got={hx}"));
+        loc.check(!hx.is_empty() && BigUint::parse_bytes(hx.as_bytes(), 16).as_ref() == Some(&ba), || format!("UpperHex N={N} a={a:x?} got={hx}"));
         // BigUint conversions
         let back: BigUint = x.into();
         loc.check(back == ba, || format!("Into<BigUint> N={N} a={a:x?}"));
@@ -297,14 +299,26 @@ fn from_bits<const N: usize>(ctx: &mut Ctx) {
         for s in set {
             val += pow2(*s);
         }
-        loc.class_if(*len > 64 * N, "bits_longer_than_capacity");
-        let got = BigInt::<N>::from_bits_le(&le);
-        // documented behaviour: bits beyond the capacity are dropped => value mod 2^(64N)
-        loc.check(big(&got.0) == &val % &modulus, || format!("from_bits_le N={N} len={len} set={set:?} got={:x?}", got.0));
+        let overlong = *len > 64 * N;
+        loc.class_if(overlong, "bits_longer_than_capacity");
+        // within the capacity: the value.  Longer than the capacity (the rustdoc is silent): the value mod 2^(64N) or
+        // a rejection (panic) - never another value
         let mut be = le.clone();
         be.reverse();
-        let got = BigInt::<N>::from_bits_be(&be);
-        loc.check(big(&got.0) == &val % &modulus, || format!("from_bits_be N={N} len={len} set={set:?} got={:x?}", got.0));
+        for (what, r) in [
+            ("from_bits_le", std::panic::catch_unwind(|| BigInt::<N>::from_bits_le(&le))),
+            ("from_bits_be", std::panic::catch_unwind(|| BigInt::<N>::from_bits_be(&be))),
+        ] {
+            match r {
+                Ok(got) => {
+                    loc.check(big(&got.0) == &val % &modulus, || format!("{what} N={N} len={len} set={set:?} got={:x?}", got.0));
+                }
+                Err(_) => {
+                    loc.class("observed:from_bits_overlong_rejected");
+                    loc.check(overlong, || format!("{what} N={N} len={len} set={set:?} panics although the bits fit the capacity"));
+                }
+            }
+        }
         if loc.sampling() {
             loc.sample(format!("N={N} bits len={len} set={set:?}"));
         }
@@ -387,68 +401,118 @@ fn recoding_values(nl: usize, quick: bool) -> Vec<Vec<u64>> {
     dedup_sorted(out)
 }
 
-fn naf_checks(ctx: &mut Ctx) {
-    for nl in 1..=3usize {
-        let vals = recoding_values(nl, ctx.quick());
-        ctx.sweep(&format!("find_naf/limbs={nl}"), vals.len() as u64, |i, loc| {
-            let v = &vals[i as usize];
-            let bv = SBig::from(from_limbs(v));
-            if loc.sampling() {
-                loc.sample(format!("naf of {v:x?}"));
-            }
-            // near the top: value + small digit overflows 2^(64 nl)
-            let near_top = v.iter().skip(1).all(|x| *x == u64::MAX) && v[0] >= u64::MAX - 2 && (nl > 1 || true) && v.iter().all(|x| *x == u64::MAX || x == &v[0]);
-            loc.class_if(near_top, "naf:value_near_2^64N");
-            let naf = find_naf(v);
-            let d: Vec<i64> = naf.iter().map(|x| *x as i64).collect();
-            let ok_digits = naf.iter().all(|x| (-1..=1).contains(x));
-            let non_adj = naf.windows(2).all(|w| w[0] == 0 || w[1] == 0);
-            loc.check_at("find_naf", digits_value(&d) == bv && ok_digits && non_adj, || {
-                format!("find_naf({v:x?}) = {naf:?}: value {} (want {bv}), digits_ok={ok_digits} non_adjacent={non_adj}", digits_value(&d))
+/// digit constraints of a (strict) NAF: digits in {-1, 0, 1}, no two adjacent non-zero digits
+fn naf_constraints(d: &[i8]) -> (bool, bool) {
+    (d.iter().all(|x| (-1..=1).contains(x)), d.windows(2).all(|w| w[0] == 0 || w[1] == 0))
+}
+
+fn naf_case(loc: &mut Loc, v: &[u64]) {
+    let nl = v.len();
+    let bv = SBig::from(from_limbs(v));
+    if loc.sampling() {
+        loc.sample(format!("naf of {v:x?}"));
+    }
+    // near the top: value + correction digit carries out of the top limb (2^(64 nl) - 1) or comes within 2 of doing so
+    let near_top = nl > 0 && v.iter().skip(1).all(|x| *x == u64::MAX) && v[0] >= u64::MAX - 2;
+    loc.class_if(near_top, "naf:value_near_2^64N");
+    loc.class_if(nl == 0, "naf:empty_slice");
+    let naf = find_naf(v);
+    let d: Vec<i64> = naf.iter().map(|x| *x as i64).collect();
+    let (ok_digits, non_adj) = naf_constraints(&naf);
+    // (a recoding padded with most-significant zero digits is a legitimate NAF: no claim about the length)
+    loc.check_at("find_naf", digits_value(&d) == bv && ok_digits && non_adj, || {
+        format!("find_naf({v:x?}) = {naf:?}: value {} (want {bv}), digits_ok={ok_digits} non_adjacent={non_adj}", digits_value(&d))
+    });
+    // relaxed NAF: the model's own NAF has fewer than 3 digits when the value is < 3
+    loc.class_if(bv < SBig::from(3), "relaxed:len<3");
+    let r = std::panic::catch_unwind(|| find_relaxed_naf(v));
+    match r {
+        Err(_) => loc.fail_at("find_relaxed_naf", format!("find_relaxed_naf({v:x?}) panics (naf length {})", naf.len())),
+        Ok(rn) => {
+            let d: Vec<i64> = rn.iter().map(|x| *x as i64).collect();
+            let digits_ok = rn.iter().all(|x| (-1..=1).contains(x));
+            // non-adjacent everywhere except possibly the two most significant (non-zero) digits
+            let sig = rn.len() - rn.iter().rev().take_while(|x| **x == 0).count();
+            let body = if sig >= 2 { &rn[..sig - 1] } else { &rn[..sig] };
+            let non_adj = body.windows(2).all(|w| w[0] == 0 || w[1] == 0);
+            loc.check_at("find_relaxed_naf", digits_value(&d) == bv && digits_ok && non_adj, || {
+                format!("find_relaxed_naf({v:x?}) = {rn:?}: value {} want {bv}; digits_ok={digits_ok} non_adjacent_below_top={non_adj}", digits_value(&d))
             });
-            let top_ok = naf.last().map(|x| *x != 0).unwrap_or(true);
-            loc.check_at("find_naf", top_ok, || format!("find_naf({v:x?}) has a leading zero digit"));
-            // relaxed NAF
-            loc.class_if(naf.len() < 3, "relaxed:len<3");
-            let r = std::panic::catch_unwind(|| find_relaxed_naf(v));
-            match r {
-                Err(_) => loc.fail_at("find_relaxed_naf", format!("find_relaxed_naf({v:x?}) panics (naf length {})", naf.len())),
-                Ok(rn) => {
-                    let d: Vec<i64> = rn.iter().map(|x| *x as i64).collect();
-                    let digits_ok = rn.iter().all(|x| (-1..=1).contains(x));
-                    // non-adjacent everywhere except possibly the two most significant digits
-                    let body = if rn.len() >= 2 { &rn[..rn.len() - 1] } else { &rn[..] };
-                    let non_adj = body.windows(2).all(|w| w[0] == 0 || w[1] == 0);
-                    loc.check_at("find_relaxed_naf", digits_value(&d) == bv && digits_ok && non_adj && rn.len() <= naf.len(), || {
-                        format!("find_relaxed_naf({v:x?}) = {rn:?}: value {} want {bv}", digits_value(&d))
-                    });
-                }
-            }
-        });
+        }
     }
 }
 
-fn wnaf_checks<const N: usize>(ctx: &mut Ctx) {
-    let mut vals = recoding_values(N, ctx.quick());
-    // within 2^(w-1)+1 of 2^(64N) for every w up to 12 exhaustively (F2 region): top - d for d <= 2049
-    let lim = if ctx.quick() { 300 } else { 2050 };
+fn naf_checks(ctx: &mut Ctx) {
+    ctx.sweep("find_naf/limbs=0", 1, |_, loc| naf_case(loc, &[]));
+    for nl in [1usize, 2, 3, 4, 6] {
+        let vals = recoding_values(nl, ctx.quick());
+        ctx.sweep(&format!("find_naf/limbs={nl}"), vals.len() as u64, |i, loc| naf_case(loc, &vals[i as usize]));
+    }
+}
+
+/// the values on which the wNAF correction interacts with the capacity: all-ones based patterns, everything within `lim`
+/// of 2^(64N), 2^(64N) - 2^(w-1) +- 1 for every window, limb boundaries, plus a deviation<=1 ball (wide N, where
+/// the full `recoding_values` product is too expensive)
+fn wnaf_edge_values(n: usize, lim: u64) -> Vec<Vec<u64>> {
+    let mut vals: Vec<Vec<u64>> = Vec::new();
+    for base in [0u64, u64::MAX] {
+        vals.extend(deviation_ball(&vec![base; n], &L10, 1));
+    }
+    for v in 0..=64u64 {
+        let mut l = vec![0u64; n];
+        l[0] = v;
+        vals.push(l);
+    }
+    for k in 1..n {
+        for d in 1..=3u64 {
+            let mut l = vec![0u64; n];
+            for j in 0..k {
+                l[j] = u64::MAX;
+            }
+            l[0] = u64::MAX - (d - 1);
+            vals.push(l);
+            let mut l = vec![0u64; n];
+            l[k] = 1;
+            l[0] = d - 1;
+            vals.push(l);
+        }
+    }
+    let mut g = vec![GENERIC64; n];
+    vals.push(g.clone());
+    g[n - 1] = u64::MAX;
+    vals.push(g);
+    wnaf_top_values(&mut vals, n, lim);
+    dedup_sorted(vals)
+}
+
+/// 2^(64N) - d for d <= lim, and 2^(64N) - 2^(w-1) +- 1 for every window size
+fn wnaf_top_values(vals: &mut Vec<Vec<u64>>, n: usize, lim: u64) {
     for d in 1..=lim {
-        let mut l = vec![u64::MAX; N];
+        let mut l = vec![u64::MAX; n];
         l[0] = u64::MAX - (d - 1);
         vals.push(l);
     }
-    // for large w: top limb region 2^(64N) - 2^(w-1) +- 1
     for w in 2..64usize {
         for delta in [-1i64, 0, 1] {
-            let mut l = vec![u64::MAX; N];
+            let mut l = vec![u64::MAX; n];
             l[0] = (0u64.wrapping_sub(1u64 << (w - 1))).wrapping_add(delta as u64);
             vals.push(l);
         }
     }
-    let vals = dedup_sorted(vals);
+}
+
+fn wnaf_checks<const N: usize>(ctx: &mut Ctx, edge_only: bool) {
+    // within 2^(w-1)+1 of 2^(64N) for every w up to 12 exhaustively (F2 region): top - d for d <= 2049
+    let vals = if edge_only {
+        wnaf_edge_values(N, if ctx.quick() { 130 } else { 2050 })
+    } else {
+        let mut vals = recoding_values(N, ctx.quick());
+        wnaf_top_values(&mut vals, N, if ctx.quick() { 300 } else { 2050 });
+        dedup_sorted(vals)
+    };
     let ws: Vec<usize> = (0..=66).collect();
     let nw = ws.len() as u64;
-    ctx.sweep(&format!("find_wnaf/N={N}"), vals.len() as u64 * nw, |i, loc| {
+    ctx.sweep(&format!("find_wnaf/N={N}{}", if edge_only { "/edge" } else { "" }), vals.len() as u64 * nw, |i, loc| {
         let [iw, iv] = unrank(i, [nw, vals.len() as u64]);
         let w = ws[iw as usize];
         let v = &vals[iv as usize];
@@ -460,22 +524,25 @@ fn wnaf_checks<const N: usize>(ctx: &mut Ctx) {
             loc.sample(format!("wnaf N={N} w={w} v={v:x?}"));
         }
         let r = x.find_wnaf(w);
-        if !(2..64).contains(&w) {
-            loc.check(r.is_none(), || format!("find_wnaf(w={w}) should be None"));
-            return;
+        let valid_w = (2..64).contains(&w);
+        if valid_w {
+            loc.class_if(w >= 32, "wnaf:w>=32");
+            // would the first correction overflow 2^(64N)?
+            let modulus = SBig::from(pow2(64 * N));
+            let half = SBig::one() << (w - 1);
+            loc.class_if(&bv + &half > modulus, "wnaf:value_near_2^64N");
+        } else {
+            // a window outside 2..64 has no wNAF with i64 digits: None, or (never a panic) a recoding that is right
+            loc.class("wnaf:window_outside_2..64");
         }
-        loc.class_if(w >= 32, "wnaf:w>=32");
-        // would the first correction overflow 2^(64N)?
-        let modulus = SBig::from(pow2(64 * N));
-        let half = SBig::one() << (w - 1);
-        loc.class_if(&bv + &half > modulus, "naf:value_near_2^64N");
         let Some(d) = r else {
-            loc.fail(format!("find_wnaf(w={w}) returned None for valid w"));
+            loc.check(!valid_w, || format!("find_wnaf(w={w}) returned None for valid w"));
             return;
         };
         let val = digits_value(&d);
-        let bound = 1i64 << (w - 1);
-        let digits_ok = d.iter().all(|x| *x == 0 || (x % 2 != 0 && x.abs() < bound));
+        // digits are zero or odd with |digit| < 2^(w-1)
+        // (w = 0 has no digit set at all; w > 64: every odd i64 is below 2^(w-1))
+        let digits_ok = w == 0 || d.iter().all(|x| *x == 0 || (x % 2 != 0 && (w > 64 || (x.unsigned_abs() as u128) < (1u128 << (w - 1)))));
         // any w consecutive digits contain at most one non-zero
         let mut spaced = true;
         let mut last_nz: Option<usize> = None;
@@ -492,6 +559,103 @@ fn wnaf_checks<const N: usize>(ctx: &mut Ctx) {
         loc.check_at("find_wnaf", val == bv && digits_ok && spaced, || {
             format!("BigInt<{N}>({v:x?}).find_wnaf({w}): value {val} want {bv}; digits_ok={digits_ok} spaced={spaced} len={}", d.len())
         });
+    });
+}
+
+/// the public limb primitives of biginteger::arithmetic against u128 arithmetic, on the whole product of a boundary alphabet
+fn limb_primitive_checks(ctx: &mut Ctx) {
+    use ark_ff::biginteger::arithmetic as fa;
+    const A8: [u64; 8] = [0, 1, 2, (1 << 32) - 1, 1 << 32, 1 << 63, u64::MAX - 1, u64::MAX];
+    ctx.sweep("limb_primitives", 8 * 8 * 8 * 8, |i, loc| {
+        let [ia, ib, ic, id] = unrank(i, [8, 8, 8, 8]);
+        let (a, b, c, carry) = (A8[ia as usize], A8[ib as usize], A8[ic as usize], A8[id as usize]);
+        let s = || format!("a={a:#x} b={b:#x} c={c:#x} carry={carry:#x}");
+        if loc.sampling() {
+            loc.sample(s());
+        }
+        let two64 = BigUint::one() << 64usize;
+        let lo = |v: &BigUint| -> u64 { (v % &two64).to_u64_digits().first().copied().unwrap_or(0) };
+        let hi = |v: &BigUint| -> BigUint { v >> 64usize };
+        // adc: a + b + carry (any u64 carry)
+        let sum = BigUint::from(a) + BigUint::from(b) + BigUint::from(carry);
+        loc.class_if(sum >= two64, "limb_primitives:carry_out");
+        let mut x = a;
+        let co = fa::adc(&mut x, b, carry);
+        loc.check_at("adc", x == lo(&sum) && BigUint::from(co) == hi(&sum), || format!("adc {} -> a={x:#x} carry={co}", s()));
+        // adc_no_carry: documented for sums that do not carry out
+        if sum < two64 {
+            let r = fa::adc_no_carry(a, b, &carry);
+            loc.check_at("adc_no_carry", r == lo(&sum), || format!("adc_no_carry {} -> {r:#x}", s()));
+        }
+        // mac / mac_discard: a + b*c;  mac_with_carry: a + b*c + carry
+        let m = BigUint::from(a) + BigUint::from(b) * BigUint::from(c);
+        let mut cy = carry;
+        let r = fa::mac(a, b, c, &mut cy);
+        loc.check_at("mac", r == lo(&m) && BigUint::from(cy) == hi(&m), || format!("mac {} -> {r:#x} carry={cy:#x}", s()));
+        let mut cy = carry;
+        fa::mac_discard(a, b, c, &mut cy);
+        loc.check_at("mac_discard", BigUint::from(cy) == hi(&m), || format!("mac_discard {} -> carry={cy:#x}", s()));
+        let mc = &m + BigUint::from(carry);
+        let mut cy = carry;
+        let r = fa::mac_with_carry(a, b, c, &mut cy);
+        loc.check_at("mac_with_carry", r == lo(&mc) && BigUint::from(cy) == hi(&mc), || format!("mac_with_carry {} -> {r:#x} carry={cy:#x}", s()));
+        loc.check_at("widening_mul", BigUint::from(fa::widening_mul(b, c)) == BigUint::from(b) * BigUint::from(c), || format!("widening_mul {}", s()));
+        // flag-carry forms: the incoming carry / borrow is a flag (0 or 1)
+        if carry <= 1 {
+            let mut x = a;
+            let co = fa::adc_for_add_with_carry(&mut x, b, carry as u8);
+            loc.check_at("adc_for_add_with_carry", x == lo(&sum) && BigUint::from(co) == hi(&sum), || format!("adc_for_add_with_carry {} -> a={x:#x} carry={co}", s()));
+            let sub = BigUint::from(b) + BigUint::from(carry);
+            let borrow = BigUint::from(a) < sub;
+            loc.class_if(borrow, "limb_primitives:borrow_out");
+            let want = lo(&(&two64 + BigUint::from(a) - &sub));
+            let mut x = a;
+            let bo = fa::sbb_for_sub_with_borrow(&mut x, b, carry as u8);
+            loc.check_at("sbb_for_sub_with_borrow", x == want && bo == borrow as u8, || format!("sbb_for_sub_with_borrow {} -> a={x:#x} borrow={bo}", s()));
+            let mut bw = carry;
+            let r = ark_ff::sbb!(a, b, &mut bw);
+            loc.check_at("sbb!", r == want && bw == borrow as u64, || format!("sbb! {} -> {r:#x} borrow={bw}", s()));
+        }
+    });
+}
+
+/// FromStr on strings that are not Display outputs: a syntactic variant is rejected or denotes its value, a numeral
+/// outside 0..2^(64N) and a non-numeral are rejected; never another value, never a panic
+fn from_str_syntax<const N: usize>(ctx: &mut Ctx) {
+    let modulus = pow2(64 * N);
+    let max = &modulus - 1u32;
+    // (string, the value it may denote, must be accepted)
+    let mut cases: Vec<(String, Option<BigUint>, bool)> = vec![
+        ("".into(), None, false),
+        ("+5".into(), Some(BigUint::from(5u32)), false),
+        ("-1".into(), None, false),
+        ("007".into(), Some(BigUint::from(7u32)), false),
+        (" 5".into(), Some(BigUint::from(5u32)), false),
+        ("5 ".into(), Some(BigUint::from(5u32)), false),
+        ("0x5".into(), Some(BigUint::from(5u32)), false),
+        ("abc".into(), None, false),
+        ("5".into(), Some(BigUint::from(5u32)), true),
+        (max.to_str_radix(10), Some(max.clone()), true),
+        (format!("0{}", max.to_str_radix(10)), Some(max.clone()), false),
+        (modulus.to_str_radix(10), None, false),
+        ((&modulus + 1u32).to_str_radix(10), None, false),
+        ((&modulus * &modulus).to_str_radix(10), None, false),
+        (format!("-{}", modulus.to_str_radix(10)), None, false),
+    ];
+    cases.dedup_by(|a, b| a.0 == b.0);
+    ctx.sweep(&format!("from_str_syntax/N={N}"), cases.len() as u64, |i, loc| {
+        let (st, val, must) = &cases[i as usize];
+        if loc.sampling() {
+            loc.sample(format!("N={N} FromStr({st:?})"));
+        }
+        loc.class_if(val.is_none() && st.len() > 4, "from_str:out_of_range");
+        let r = BigInt::<N>::from_str(st);
+        let ok = match (&r, val) {
+            (Ok(x), Some(v)) => big(&x.0) == *v,
+            (Ok(_), None) => false,
+            (Err(_), _) => !*must,
+        };
+        loc.check_at("from_str", ok, || format!("BigInt::<{N}>::from_str({st:?}) = {:?}; allowed: {}{}", r.as_ref().map(|x| big(&x.0)), if *must { "" } else { "Err" }, val.as_ref().map(|v| format!(" {v}")).unwrap_or_default()));
     });
 }
 
@@ -564,6 +728,7 @@ fn per_n<const N: usize>(ctx: &mut Ctx) {
     let sv = if N <= 2 { full.clone() } else { small.clone() };
     shift_ops::<N>(ctx, if quick { &sv } else { &full });
     from_bits::<N>(ctx);
+    from_str_syntax::<N>(ctx);
 }
 
 fn main() {
@@ -580,6 +745,12 @@ fn main() {
         "limb_boundary_carry",
         "hi_product_nonzero",
         "naf:value_near_2^64N",
+        "wnaf:value_near_2^64N",
+        "naf:empty_slice",
+        "num_bits:zero_top_limb",
+        "limb_primitives:carry_out",
+        "limb_primitives:borrow_out",
+        "from_str:out_of_range",
         "relaxed:len<3",
         "wnaf:w>=32",
         "bits_longer_than_capacity",
@@ -590,6 +761,9 @@ fn main() {
     ctx.bound("pairs", if ctx.quick() { "N<=3 all ordered pairs; N>=4 dev<=1 x dev<=1" } else { "N<=3 all ordered pairs; N>=4 dev<=2 x dev<=1 both orders" });
     ctx.bound("shifts", "every n in 0..=64N+2 plus 2^31, u32::MAX");
     ctx.bound("wnaf_windows", "every w in 0..=66");
+    ctx.bound("wnaf_values", "N=1,2,4,6 (thorough: 13): small integers, L10 products / dev<=2, limb boundaries, 2^(64N)-d (d<=300 quick / 2050), 2^(64N)-2^(w-1)+-1; N=13: edge set (dev<=1 over {0..0,f..f}, small, limb boundaries, 2^(64N)-d for d<=130 quick / 2050, 2^(64N)-2^(w-1)+-1)");
+    ctx.bound("naf_slices", "0, 1, 2, 3, 4 and 6 limbs");
+    ctx.bound("limb_primitives", "(a,b,c,carry) in {0,1,2,2^32-1,2^32,2^63,2^64-2,2^64-1}^4; flag-carry forms with carry in {0,1}");
     per_n::<1>(&mut ctx);
     per_n::<2>(&mut ctx);
     per_n::<3>(&mut ctx);
@@ -604,11 +778,15 @@ fn main() {
     per_n::<12>(&mut ctx);
     per_n::<13>(&mut ctx);
     from_prims(&mut ctx);
+    limb_primitive_checks(&mut ctx);
     naf_checks(&mut ctx);
-    wnaf_checks::<1>(&mut ctx);
-    wnaf_checks::<2>(&mut ctx);
+    wnaf_checks::<1>(&mut ctx, false);
+    wnaf_checks::<2>(&mut ctx, false);
+    wnaf_checks::<4>(&mut ctx, false);
+    wnaf_checks::<6>(&mut ctx, false);
+    wnaf_checks::<13>(&mut ctx, true);
     if ctx.thorough() {
-        wnaf_checks::<4>(&mut ctx);
+        wnaf_checks::<13>(&mut ctx, false);
     }
     smr_checks(&mut ctx);
     bit_iter_slices(&mut ctx);
